@@ -172,3 +172,104 @@ Proof.
   assert (Hs : split slash (slash :: p) = [] :: split slash p) by reflexivity.
   rewrite Hs. reflexivity.
 Qed.
+
+(* ---------------------------------------------------------------- the configured root *)
+
+Lemma clean_step_nonempty : forall r st seg,
+  Forall (fun e => e <> []) st -> Forall (fun e => e <> []) (clean_step r st seg).
+Proof.
+  intros r st seg H. unfold clean_step.
+  destruct (is_nil seg) eqn:E1; cbn [orb]; [assumption|].
+  destruct (beq seg dot); [assumption|].
+  destruct (beq seg dotdot).
+  - destruct st as [|top below].
+    + destruct r; constructor; [discriminate | constructor].
+    + inversion H; subst. destruct (beq top dotdot); [|assumption].
+      constructor; [discriminate | assumption].
+  - apply is_nil_false in E1. now constructor.
+Qed.
+
+Lemma fold_nonempty : forall r segs st,
+  Forall (fun e => e <> []) st -> Forall (fun e => e <> []) (fold_left (clean_step r) segs st).
+Proof.
+  intros r segs. induction segs as [|seg segs IH]; intros st H; cbn; [assumption|].
+  apply IH. now apply clean_step_nonempty.
+Qed.
+
+(* Clean never returns the empty string ("" cleans to ".") *)
+Lemma join_with_nonempty : forall sep l, l <> [] -> Forall (fun e => e <> []) l -> join_with sep l <> [].
+Proof.
+  intros sep [|x l] Hne H; [contradiction|]. inversion H as [|? ? Hx Hl]; subst.
+  destruct l as [|y l'].
+  - exact Hx.
+  - change (join_with sep (x :: y :: l')) with (x ++ sep :: join_with sep (y :: l')).
+    destruct x; [contradiction | discriminate].
+Qed.
+
+Lemma render_unrooted_nonempty : forall L : list bytes, Forall (fun e => e <> []) L ->
+  match L with [] => dot | _ => join_with slash L end <> [].
+Proof.
+  intros [|x l] H; [discriminate|]. apply join_with_nonempty; [discriminate | exact H].
+Qed.
+
+Theorem clean_nonempty : forall p, clean p <> [].
+Proof.
+  intros p. unfold clean, elems, render_path.
+  destruct (is_rooted p); [discriminate|].
+  apply render_unrooted_nonempty, Forall_rev, fold_nonempty. constructor.
+Qed.
+
+(* containment for EVERY configured root, the empty one included: the opened
+   path is the kept root's canonical elements followed by ordinary elements *)
+Theorem static_path_under_configured_root : forall rawroot urlpath,
+  let root := configured_root rawroot in
+  root <> [] /\
+  exists T, Forall normal T /\
+    static_path root [] urlpath = render_path (fst (elems root), snd (elems root) ++ T) /\
+    clean root = render_path (fst (elems root), snd (elems root)).
+Proof.
+  intros rawroot urlpath root.
+  assert (Hr : root <> []) by apply clean_nonempty.
+  split; [exact Hr|].
+  destruct (static_path_under_root root urlpath Hr) as [T [HT [_ [Hp Hc]]]].
+  exists T. auto.
+Qed.
+
+(* string level for every shape of kept root *)
+Theorem static_path_string_general : forall root urlpath, root <> [] ->
+  exists T, Forall normal T /\
+    match snd (elems root), T with
+    | _, [] => static_path root [] urlpath = clean root
+    | [], _ => (* root "/" or "." *)
+        static_path root [] urlpath =
+          if fst (elems root) then slash :: join_with slash T else join_with slash T
+    | _, _ => static_path root [] urlpath = clean root ++ slash :: join_with slash T
+    end.
+Proof.
+  intros root urlpath Hr.
+  destruct (static_path_under_root root urlpath Hr) as [T [HT [_ [Hp Hc]]]].
+  exists T. split; [assumption|].
+  destruct (snd (elems root)) as [|s S] eqn:ES; destruct T as [|t T'].
+  - rewrite Hp, Hc. reflexivity.
+  - rewrite Hp. cbn [app render_path]. destruct (fst (elems root)); reflexivity.
+  - rewrite Hp, Hc, app_nil_r. reflexivity.
+  - rewrite Hp, Hc. cbn [render_path].
+    destruct (fst (elems root)).
+    + rewrite join_with_app by discriminate. reflexivity.
+    + destruct ((s :: S) ++ t :: T') eqn:E; [discriminate|]. rewrite <- E.
+      rewrite join_with_app by discriminate. reflexivity.
+Qed.
+
+(* why NewModifier must clean the root: with the raw empty string kept,
+   filepath.Join drops the empty element and the request path is opened as an
+   absolute path *)
+Example unclean_empty_root_escapes :
+  static_path [] [] (s2l "/etc/passwd") = s2l "/etc/passwd" /\
+  static_path (configured_root []) [] (s2l "/etc/passwd") = s2l "etc/passwd" /\
+  static_path (configured_root []) [] (s2l "/../../../etc/passwd") = s2l "etc/passwd" /\
+  configured_root [] = s2l "." /\
+  configured_root (s2l "./") = s2l "." /\
+  configured_root (s2l "a/../b//") = s2l "b" /\
+  static_path (configured_root (s2l "a//b/")) [] (s2l "/x/../y") = s2l "a/b/y" /\
+  static_path (configured_root (s2l "/")) [] (s2l "/x/../y") = s2l "/y".
+Proof. vm_compute. repeat split; reflexivity. Qed.
